@@ -1,8 +1,306 @@
-import Isotp.Process
+import Isotp.Proofs.Fc
 /-
-  C08 — property theorems (see DESIGN.md §6). Helper lemmas live in Isotp/Proofs.
+  C08 — Separation time (STmin) requested by the receiver is honoured.
+  Property theorems only; helper lemmas live in Isotp/Proofs/Fc.lean.
+
+  Vocabulary (all defined in Proofs/Fc.lean):
+  * `sepOf c fc`      separation time (ns) a ContinueToSend `fc` puts in force under config `c`
+                      (`override_receiver_stmin` wins over the STmin byte);
+  * `ctsHonoured s fc` the guard under which `handleFc` honours a ContinueToSend;
+  * `EmitsCf s msg`   `processTx s` runs the TRANSMIT_CF branch and hands `msg` out;
+  * `sepInForce s`    separation time in force once `processTx s` has handled its mailbox;
+  * `SepInv s t`      "`t` is the hand-over time of the previous Consecutive Frame".
 -/
 namespace Isotp.C08
-open Isotp State
+open Isotp State Fc
+
+/-! ### Concrete states used by the non-vacuity examples -/
+
+def exHalf : Half :=
+  { mode := .n11, txid := some 0x123, rxid := some 0x456, ta := none, sa := none, ae := none,
+    physId := 0, funcId := 0, rxOnly := false, txOnly := false }
+def exAddr : Addr := ⟨exHalf, exHalf⟩
+def exReq : Req := { id := 7, size := 20, src := List.replicate 20 0x55 }
+/-- idle layer with one 20-byte request queued -/
+def ex0 : State := { State.init {} exAddr with txQueue := [exReq] }
+/-- after the First Frame (sent at t = 0): WAIT_FC -/
+def ex1 : State := ex0.processTx.1
+/-- a ContinueToSend (BS = 2, STmin = 10 ms) is in the mailbox 1 ms later -/
+def ex2 : State := { ex1 with now := 1000000, lastFc := some ⟨0, 2, 10⟩ }
+/-- it has been honoured: TRANSMIT_CF, STmin timer started at 1 ms with 10 ms -/
+def ex3 : State := ex2.processTx.1
+/-- 5 ms later: too early -/
+def ex3early : State := ex3.advance 5000000
+/-- 10 ms + 1 ns after the timer start: due -/
+def ex3due : State := ex3.advance 10000001
+/-- the first Consecutive Frame has been handed over at 11.000001 ms -/
+def ex4 : State := ex3due.processTx.1
+/-- same as `ex2` but the receiver asks for STmin = 0 -/
+def ex2z : State := { ex1 with now := 1000000, lastFc := some ⟨0, 2, 0⟩ }
+
+/-! ### 1. `stminNs_nominal`: decoding of the STmin byte -/
+
+/-- 0x00–0x7F: that many milliseconds. -/
+theorem stminNs_nominal_ms (b : Nat) (h : b ≤ 0x7F) : stminNs b = b * 1000000 :=
+  stminNs_ms b h
+
+/-- 0xF1–0xF9: 100–900 microseconds. -/
+theorem stminNs_nominal_us (b : Nat) (h1 : 0xF1 ≤ b) (h2 : b ≤ 0xF9) :
+    stminNs b = (b - 0xF0) * 100000 ∧ 100000 ≤ stminNs b ∧ stminNs b ≤ 900000 := by
+  rw [stminNs_us b h1 h2]
+  omega
+
+example : stminNs 127 = 127000000 ∧ stminNs 0xF1 = 100000 ∧ stminNs 0xF9 = 900000 := by decide
+
+/-- every other byte value is reserved. -/
+theorem validStmin_exact (b : Nat) : validStmin b = true ↔ b ≤ 0x7F ∨ (0xF1 ≤ b ∧ b ≤ 0xF9) :=
+  validStmin_iff b
+
+/-- a Flow Control frame with a reserved STmin byte is rejected by the decoder
+    (`ValueError` in `PDU.__init__`, reported as `InvalidCanDataError`), whatever FS and BS. -/
+theorem reserved_stmin_rejected (pci bs b : UInt8) (h0 : pci.toNat / 16 = 3)
+    (h : validStmin b.toNat = false) : decodeBody [pci, bs, b] = none := by
+  apply decodeBody_reserved_stmin
+  · simpa [byteAt] using h0
+  · simpa [byteAt] using h
+
+example : decodeBody [0x30, 8, 0x80] = none :=
+  reserved_stmin_rejected 0x30 8 0x80 (by decide) (by decide)
+example : decodeBody [0x30, 8, 0xFA] = none :=
+  reserved_stmin_rejected 0x30 8 0xFA (by decide) (by decide)
+
+/-- whatever the data field, a decoded Flow Control carries a valid STmin byte and FS ≤ 2 -/
+theorem decoded_fc_valid {d : Bytes} {st bs stm : Nat} (h : decodeBody d = some (.fc st bs stm)) :
+    validStmin stm = true ∧ st < 3 :=
+  ⟨(decodeBody_fc h).1, (decodeBody_fc h).2.1⟩
+
+example : decodeBody [0x30, 8, 0x14] = some (.fc 0 8 20) := by decide
+
+/-- the mailbox read by `_process_tx` only ever holds Flow Controls with a valid STmin byte:
+    `_process_rx` keeps the old content, empties it, or stores a valid frame. -/
+theorem mailbox_fc_valid (s : State) (m : CanMsg) (fc : FcFrame)
+    (h : (s.processRx m).1.lastFc = some fc) :
+    s.lastFc = some fc ∨ (validStmin fc.stmin = true ∧ fc.status < 3) :=
+  processRx_lastFc s m fc h
+
+/-! ### 2. `cts_sets_separation` -/
+
+/-- An honoured ContinueToSend sets the STmin timer's timeout to the requested separation time,
+    or to `override_receiver_stmin` when that is configured; the FSM is then in TRANSMIT_CF with
+    the granted block size. -/
+theorem cts_sets_separation (s : State) (fc : FcFrame) (h : ctsHonoured s fc = true) :
+    (s.handleFc fc).timerStmin.timeout = sepOf s.cfg fc ∧
+    (s.handleFc fc).txState = .transmitCf ∧ (s.handleFc fc).remoteBs = some fc.bs := by
+  rw [handleFc_cts s fc h]
+  refine ⟨?_, rfl, rfl⟩
+  simp only
+  split <;> rfl
+
+/-- without override: the decoded STmin byte -/
+theorem sepOf_no_override (c : Cfg) (fc : FcFrame) (h : c.overrideStminNs = none) :
+    sepOf c fc = stminNs fc.stmin := by
+  simp [sepOf, h]
+
+/-- with `override_receiver_stmin`: that value, whatever the receiver asked for -/
+theorem sepOf_override (c : Cfg) (fc : FcFrame) (o : Nat) (h : c.overrideStminNs = some o) :
+    sepOf c fc = o := by
+  simp [sepOf, h]
+
+example : ctsHonoured ex2 ⟨0, 2, 10⟩ = true := by decide
+example : ex3.timerStmin = { start := some 1000000, timeout := 10000000 } := by decide
+example : sepOf { overrideStminNs := some 250000 } ⟨0, 2, 10⟩ = 250000 := by decide
+
+/-- whatever Flow Control is handled, the STmin timeout afterwards is the honoured
+    ContinueToSend's value, or unchanged -/
+theorem stmin_timeout_after_fc (s : State) (fc : FcFrame) :
+    (s.handleFc fc).timerStmin.timeout =
+      if ctsHonoured s fc then sepOf s.cfg fc else s.timerStmin.timeout :=
+  handleFc_stmin_timeout s fc
+
+/-- and over a whole `processTx` call: only an honoured ContinueToSend changes it
+    (`sepInForce` unfolds to exactly that case distinction) -/
+theorem stmin_timeout_after_processTx (s : State) :
+    s.processTx.1.timerStmin.timeout = sepInForce s :=
+  processTx_stmin_timeout s
+
+theorem sepInForce_unchanged (s : State) (hp : s.pendingFc = false) (hfc : s.lastFc = none) :
+    sepInForce s = s.timerStmin.timeout := by
+  simp [sepInForce, fcSendPhase_not_pending hp, sepAfterFc, hfc]
+
+theorem sepInForce_cts (s : State) (fc : FcFrame) (hp : s.pendingFc = false) (hfc : s.lastFc = some fc)
+    (h : ctsHonoured s fc = true) : sepInForce s = sepOf s.cfg fc := by
+  simp [sepInForce, fcSendPhase_not_pending hp, sepAfterFc, hfc, h]
+
+/-- `_process_rx` never touches the STmin timer (nor anything else of the transmit side) -/
+theorem processRx_keeps_stmin (s : State) (m : CanMsg) :
+    (s.processRx m).1.timerStmin = s.timerStmin := by
+  have := processRx_txView s m
+  simp only [txView, Prod.mk.injEq] at this
+  exact this.2.2.2.2.1
+
+/-! ### 3. `cf_requires_elapsed` -/
+
+/-- `transmitCf` hands a Consecutive Frame out only if the STmin timer has expired: it was
+    started at some `t0` and strictly more than its timeout has elapsed (or the timeout is zero).
+    Afterwards, unless the message is finished, the timer has been restarted at the current
+    time with the same timeout. -/
+theorem cf_requires_elapsed {s s' : State} {allowed : Nat} {msg : CanMsg} {imm : Bool}
+    (h : s.transmitCf allowed = (s', some msg, imm)) :
+    (∃ t0, s.timerStmin.start = some t0 ∧
+      (s.now - t0 > s.timerStmin.timeout ∨ s.timerStmin.timeout = 0)) ∧
+    s'.timerStmin.timeout = s.timerStmin.timeout ∧ s'.now = s.now ∧
+    (s'.txState = .idle ∨ s'.timerStmin.start = some s.now) := by
+  obtain ⟨k1, _, _, k4, k5, k6⟩ := transmitCf_some h
+  refine ⟨(Timer_timedOut_iff _ _).1 k1, k4, k5, ?_⟩
+  rcases k6 with k6 | k6
+  · exact Or.inl k6
+  · exact Or.inr k6.1
+
+/-- too early: nothing is sent and nothing changes -/
+theorem cf_not_before (s : State) (allowed : Nat) (h : s.timerStmin.timedOut s.now = false)
+    (hb : s.remoteBs.isSome) (ha : s.active.isSome) : s.transmitCf allowed = (s, none, false) := by
+  cases hb' : s.remoteBs with
+  | none => simp [hb'] at hb
+  | some bs =>
+    cases ha' : s.active with
+    | none => simp [ha'] at ha
+    | some r => rw [transmitCf_eq s allowed bs r hb' ha']; simp [h]
+
+example : ex3early.timerStmin.timedOut ex3early.now = false := by decide
+example : ex3early.processTx.2.1 = none := by decide
+example : ex3due.processTx.2.1.map (·.data) = some [0x21, 0x55, 0x55, 0x55, 0x55, 0x55, 0x55, 0x55] := by
+  decide
+example : ex4.timerStmin = { start := some 11000001, timeout := 10000000 } := by decide
+
+/-! ### 4. `gap`: the trace-level statement -/
+
+/-- **Gap theorem.** Let `t` be the time at which the previous Consecutive Frame of the message
+    was handed over (`SepInv s t`). If this `processTx` call hands over the next Consecutive
+    Frame, then strictly more than the separation time in force has elapsed since `t`, unless that
+    separation time is zero; the hand-over happens at `s.now`, and `SepInv` holds again for
+    `s.now`. -/
+theorem gap (s : State) (t : Nat) (msg : CanMsg) (hinv : SepInv s t) (hcf : EmitsCf s msg) :
+    (sepInForce s = 0 ∨ s.now - t > sepInForce s) ∧
+    s.processTx.1.now = s.now ∧ SepInv s.processTx.1 s.now :=
+  ⟨(gap_of_emits s t msg hinv hcf).1, processTx_now s, (gap_of_emits s t msg hinv hcf).2⟩
+
+/-- in every case at least the separation time has elapsed -/
+theorem gap_ge (s : State) (t : Nat) (msg : CanMsg) (hinv : SepInv s t) (hcf : EmitsCf s msg) :
+    s.now - t ≥ sepInForce s := by
+  rcases (gap s t msg hinv hcf).1 with h | h <;> omega
+
+/-- reading for a receiver asking for `b` milliseconds (no override): at least `b` ms between the
+    two hand-overs -/
+theorem gap_ms (s : State) (t : Nat) (msg : CanMsg) (b : Nat) (hb : b ≤ 0x7F)
+    (hsep : sepInForce s = stminNs b) (hinv : SepInv s t) (hcf : EmitsCf s msg) :
+    s.now - t ≥ b * 1000000 := by
+  have := gap_ge s t msg hinv hcf
+  rw [hsep, stminNs_ms b hb] at this
+  exact this
+
+/-- reading for 0xF1–0xF9: at least 100–900 µs -/
+theorem gap_us (s : State) (t : Nat) (msg : CanMsg) (b : Nat) (h1 : 0xF1 ≤ b) (h2 : b ≤ 0xF9)
+    (hsep : sepInForce s = stminNs b) (hinv : SepInv s t) (hcf : EmitsCf s msg) :
+    s.now - t ≥ (b - 0xF0) * 100000 := by
+  have := gap_ge s t msg hinv hcf
+  rw [hsep, stminNs_us b h1 h2] at this
+  exact this
+
+/-- The invariant is established by the First Frame's flow-control answer (any time `t` not in
+    the future works when the FSM is not in TRANSMIT_CF, e.g. the First Frame's hand-over time) … -/
+theorem sepInv_outside_cf (s : State) (t : Nat) (h1 : t ≤ s.now) (h2 : s.txState ≠ .transmitCf) :
+    SepInv s t :=
+  SepInv_of_not_cf h1 h2
+
+/-- … and kept by every operation of the layer, however irregularly they are interleaved:
+    `processTx` (emitting or not, including a ContinueToSend consumed mid-block and a block
+    boundary WAIT_FC → TRANSMIT_CF, where the timer is restarted at a later time), -/
+theorem sepInv_processTx (s : State) (t : Nat) (h : SepInv s t) : SepInv s.processTx.1 t :=
+  SepInv_processTx s t h
+/-- `processRx`, -/
+theorem sepInv_processRx (s : State) (m : CanMsg) (t : Nat) (h : SepInv s t) :
+    SepInv (s.processRx m).1 t :=
+  SepInv_processRx s m t h
+/-- the passing of time, -/
+theorem sepInv_advance (s : State) (dt t : Nat) (h : SepInv s t) : SepInv (s.advance dt) t :=
+  SepInv_advance s dt t h
+/-- `send`, -/
+theorem sepInv_send (s : State) (a : SendArgs) (t : Nat) (h : SepInv s t) : SepInv (s.send a).1 t :=
+  SepInv_send s a t h
+/-- `reset`, -/
+theorem sepInv_reset (s : State) (t : Nat) (h : SepInv s t) : SepInv s.reset t :=
+  SepInv_reset s t h
+/-- and a whole `process()` call (rx loop with its blocking reads advancing the clock, limiter
+    update, tx loop, repeated). -/
+theorem sepInv_process (s : State) (doRx doTx : Bool) (t : Nat) (h : SepInv s t) :
+    SepInv (s.process doRx doTx).1 t :=
+  process_stable (SepInv_loopStable t) s doRx doTx h
+
+example : SepInv ex1 0 := by
+  refine ⟨by decide, ?_⟩
+  intro h; exact absurd h (by decide)
+example : SepInv ex3due 0 := sepInv_advance _ _ _ (sepInv_processTx ex2 0 ⟨by decide, fun h => absurd h (by decide)⟩)
+example : cfBranch ex3due = true := by decide
+example : EmitsCf ex3due (ex3due.processTx.2.1.get (by decide)) := ⟨by decide, by simp⟩
+example : sepInForce ex3due = 10000000 := by decide
+
+/-! ### 5. `zero_not_delayed` -/
+
+/-- with a zero separation time the running STmin timer is expired at every instant -/
+theorem zero_always_due (t : Timer) (t0 now : Nat) (h0 : t.timeout = 0) (hs : t.start = some t0) :
+    t.timedOut now = true :=
+  timedOut_of_zero h0 hs now
+
+/-- … so the first transmit pass (mailbox empty, limiter letting the frame through) hands the
+    due Consecutive Frame out — or ends the message / raises — without any delay. -/
+theorem zero_not_delayed (s : State) (r : Req) (hw : TxWf s) (hs : s.txState = .transmitCf)
+    (h0 : s.timerStmin.timeout = 0) (hp : s.pendingFc = false) (hfc : s.lastFc = none)
+    (ha : s.active = some r) (hd : r.depleted = false) (hl : cfPayloadLen s r ≤ (allowedNow s))
+    (hdl : s.txPrefixLen + 2 ≤ s.cfg.txDl) :
+    s.processTx.1.exc.isSome ∨ s.processTx.1.txState = .idle ∨
+    (∃ msg r', s.processTx.2.1 = some msg ∧ s.processTx.1.active = some r' ∧
+      r'.remaining < r.remaining ∧ r'.id = r.id ∧ r'.size = r.size) := by
+  have hst : s.timerStmin.start.isSome := (hw.2.2.1 hs).1
+  cases hstart : s.timerStmin.start with
+  | none => simp [hstart] at hst
+  | some t0 =>
+    exact processTx_cf_progress s r hw hs hp hfc ha hd (timedOut_of_zero h0 hstart _) hl hdl
+
+/-- the same pass that honours a ContinueToSend with STmin = 0 already sends the first frame of
+    the block (concrete run) -/
+example : ex2z.processTx.2.1.map (·.data) = some [0x21, 0x55, 0x55, 0x55, 0x55, 0x55, 0x55, 0x55] := by
+  decide
+example : ex2z.processTx.1.processTx.2.1.map (·.data) =
+    some [0x22, 0x55, 0x55, 0x55, 0x55, 0x55, 0x55, 0x55] := by decide
 
 end Isotp.C08
+
+#print axioms Isotp.C08.stminNs_nominal_ms
+#print axioms Isotp.C08.stminNs_nominal_us
+#print axioms Isotp.C08.validStmin_exact
+#print axioms Isotp.C08.reserved_stmin_rejected
+#print axioms Isotp.C08.decoded_fc_valid
+#print axioms Isotp.C08.mailbox_fc_valid
+#print axioms Isotp.C08.cts_sets_separation
+#print axioms Isotp.C08.sepOf_no_override
+#print axioms Isotp.C08.sepOf_override
+#print axioms Isotp.C08.stmin_timeout_after_fc
+#print axioms Isotp.C08.stmin_timeout_after_processTx
+#print axioms Isotp.C08.sepInForce_unchanged
+#print axioms Isotp.C08.sepInForce_cts
+#print axioms Isotp.C08.processRx_keeps_stmin
+#print axioms Isotp.C08.cf_requires_elapsed
+#print axioms Isotp.C08.cf_not_before
+#print axioms Isotp.C08.gap
+#print axioms Isotp.C08.gap_ge
+#print axioms Isotp.C08.gap_ms
+#print axioms Isotp.C08.gap_us
+#print axioms Isotp.C08.sepInv_outside_cf
+#print axioms Isotp.C08.sepInv_processTx
+#print axioms Isotp.C08.sepInv_processRx
+#print axioms Isotp.C08.sepInv_advance
+#print axioms Isotp.C08.sepInv_send
+#print axioms Isotp.C08.sepInv_reset
+#print axioms Isotp.C08.sepInv_process
+#print axioms Isotp.C08.zero_always_due
+#print axioms Isotp.C08.zero_not_delayed
